@@ -80,7 +80,7 @@ def sweep_case(draw, ctx=None):
         rc = repair_case({"spec": spec, "cfg": {"vectorize": vec_}}, ctx)
         spec, repaired = rc["spec"], rc.get("_repaired", [])
     rm = RefModel(spec)
-    n_keys = draw(st.integers(1, 2))
+    n_keys = draw(st.sampled_from([1, 2, 2, 2, 3]))
     pmap = {}
     grid = {}
     node_names = [p for p, _ in spec["nodes"]]
@@ -125,7 +125,7 @@ def sweep_case(draw, ctx=None):
                 edges = [e if len(e) == 3 else e + [0] for e in edges]
             pmap[key] = {"vars": ["weight"], "edges": edges}
             base = 0.5
-        n_vals = draw(st.integers(2, 3))
+        n_vals = draw(st.integers(2, 3)) if (n_keys < 3 or ki == 1) else 2
         grid[key] = [round(base + 0.35 * j + 0.05 * ki, 3) for j in range(n_vals)]
     solver = draw(st.sampled_from(["euler", "euler", "scipy"]))
     ekeys = [k for k, m in pmap.items() if "edges" in m]
@@ -135,8 +135,8 @@ def sweep_case(draw, ctx=None):
         if not any(e.get("d") is not None for e in spec["edges"]):
             pmap["GD"] = {"vars": ["delay"], "edges": [list(e0)]}
             grid["GD"] = [0.03, 0.05, 0.04][:len(grid[ekeys[0]])]
-    permute = draw(st.booleans()) if len(grid) == 2 else False
-    if not permute and len(grid) == 2:
+    permute = draw(st.booleans()) if len(grid) >= 2 else False
+    if not permute and len(grid) >= 2:
         m = min(len(v) for v in grid.values())
         grid = {k: v[:m] for k, v in grid.items()}
     inp = None
@@ -159,7 +159,7 @@ class SweepArm(Arm):
     budget = {"quick": 700, "thorough": 5000}
     min_per_shard = 12
     case_timeout = 120
-    required_labels = ("node_key", "edge_key", "permute", "input", "scipy", "euler", "edge_idx", "several_nodes",
+    required_labels = ("node_key", "edge_key", "permute", "permute_three_keys", "input", "scipy", "euler", "edge_idx", "several_nodes",
                        "subset_of_nodes_sharing_a_template", "dataframe_grid_permuted_index", "two_keys_on_one_edge",
                        "input_wildcard", "hierarchical")
 
@@ -195,6 +195,8 @@ class SweepArm(Arm):
                     lab.append("edge_idx")
         if case["permute"]:
             lab.append("permute")
+            if len(case["grid"]) >= 3:
+                lab.append("permute_three_keys")
         if any("/" in p for p, _ in spec["nodes"]):
             lab.append("hierarchical")
         nts_ = [nt for _, nt in spec["nodes"]]
